@@ -91,11 +91,19 @@ type c02Target struct {
 	mmu    sync.Mutex
 }
 
+// upsert hands the balancer the caller's own url.URL value and, as callers do, goes on using that value afterwards
+// (here: scribbles over it): the pool is defined by what was passed at the time of the call.
 func (t *c02Target) upsert(u *url.URL, opts ...roundrobin.ServerOption) error {
-	if t.rb != nil {
-		return t.rb.UpsertServer(u, opts...)
+	mine := *u
+	if u.User != nil {
+		ui := *u.User
+		mine.User = &ui
 	}
-	return t.rr.UpsertServer(u, opts...)
+	defer func() { mine.Scheme, mine.Host, mine.Path, mine.RawQuery, mine.User = "https", "scribbled-after-the-call.test", "/scribbled", "x=1", nil }()
+	if t.rb != nil {
+		return t.rb.UpsertServer(&mine, opts...)
+	}
+	return t.rr.UpsertServer(&mine, opts...)
 }
 func (t *c02Target) remove(u *url.URL) error {
 	if t.rb != nil {
